@@ -339,8 +339,15 @@ def rule_unsigned_pred(w):
 
 
 def _extent_atom(fk, fn, lhs):
-    """Lin repr if lhs is the length of a container / an extent parameter"""
+    """Lin repr if lhs is the length of a container / an extent parameter (also through a single-assignment local: `const Index n(this->size())`)"""
     lhs = strip(lhs)
+    if lhs is not None and lhs.get("k") == "Ref" and lhs.get("dk") == "local":
+        r = fk._resolve_local(lhs)
+        for _ in range(2):
+            if r is not None and r.get("k") in ("Construct", "TempObj") and len(r.get("a", [])) == 1:
+                r = strip(r["a"][0])
+        if r is not None and r is not lhs:
+            lhs = r
     if lhs.get("k") == "MCall" and lhs.get("n") == "size" and not lhs.get("a"):
         s = fk.size(lhs)
         if s is None:
@@ -1644,6 +1651,7 @@ def rule_cuthill(w):
         return
     PA = "perm._perm_pos"
     MASK = None
+    MST = None
     ins = [e for e in fk.events if e.kind == "sub" and e.mode == "write" and e.arr.key == PA and e.op == "=" and not (e.val_canon or "").startswith(PA + "[")
            and not _is_perm_elem(fk, e.val, PA)]
     if len(ins) < 2:
@@ -1654,16 +1662,20 @@ def rule_cuthill(w):
         v = strip(e.val)
         what = "root" if not [f for f in e.frames if f.kind == "if"] else "neighbour"
         # the node is marked in the same block
-        same = [m for m in fk.events if m.kind == "sub" and m.mode == "write" and m.arr.owner == "local" and m.idx_canon == x and frames_key(m.frames) == frames_key(e.frames)
-                and m.val_canon in ("1", "true") and "bool" in (fn.type(m.arr.node["vars"][0]["t"]) if m.arr.node and m.arr.node.get("vars") else "bool")]
+        # the processed-mask: a local array with two states, `open` (its initial value) and `done` (the value stored when a node is entered)
+        same = [m for m in fk.events if m.kind == "sub" and m.mode == "write" and m.arr.owner == "local" and m.arr.fresh and m.idx_canon == x and frames_key(m.frames) == frames_key(e.frames)
+                and _mask_states(fk, m.arr) is not None and _cval(m.val_canon) == _mask_states(fk, m.arr)[1]]
         if len(same) != 1:
             problems.append("node %s is entered into the ordering but not marked as processed in the same block" % x)
         else:
             MASK = same[0].arr.key
+            MST = _mask_states(fk, same[0].arr)
         if what == "neighbour":
             ifs = [f for f in e.frames if f.kind == "if" and f.branch == "then"]
-            if not (MASK and any(f.canon.startswith("!%s[%s]" % (MASK, x)) for f in ifs)):
-                problems.append("neighbour %s is entered without the test !%s[%s]" % (x, MASK, x))
+            lvars = {f.loop.var: ("$it%d" if f.loop.kind == "adj" else "$%d") % f.loop.depth for f in e.frames if f.kind == "loop" and f.loop is not None and f.loop.var is not None}
+            stn = {"mask": MASK, "states": MST if MASK else None, "idx": lambda n, x=x, lv=lvars: fk.canon(n, extra=lv) == x}
+            if not (MASK and any(_unmarked_pol(fk, cj, stn) == 1 for f in ifs for cj in _conj19(f.node.get("c")))):
+                problems.append("neighbour %s is entered without the test that %s[%s] is still unmarked" % (x, MASK, x))
             segs = [f for f in e.frames if f.kind == "loop" and f.loop is not None and f.loop.kind == "seg"]
             if not (len(segs) == 1 and segs[0].loop.pair_ok and segs[0].loop.canon.startswith("seg(graph._domain_ptr,%s[" % PA) and x == "graph._image_idx[$%d]" % segs[0].loop.depth):
                 problems.append("the entered node is not an element of the adjacency list of an already ordered node")
@@ -1708,7 +1720,8 @@ def rule_cuthill(w):
                         others = [x for x in fk.events if x.kind == "scalar" and x.var == m.var and frames_key(x.frames) != frames_key(e.frames)]
                         if v is not None and v.get("init") is not None and not others:
                             best[m.var] = fk.size(v["init"])
-                st = {"root": rootvar, "rinit": rinit if not stray else None, "best": best, "j": jvar, "mask": MASK}
+                st = {"root": rootvar, "rinit": rinit if not stray else None, "best": best, "j": jvar, "mask": MASK, "states": MST,
+                      "idx": lambda n, jv=jvar: strip(n).get("k") == "Ref" and strip(n).get("d") == jv}
                 conds = [f.node.get("c") for f in ifs]
                 vals = [_eval_first(fk, c, st) for c in conds]
                 guarded = any(_mentions_unmarked(fk, c, st) for c in conds)
@@ -1748,6 +1761,75 @@ def _is_perm_elem(fk, val, key):
     return False
 
 
+def _cval(c):
+    """canonical spelling of a mask state"""
+    c = (c or "").strip()
+    c = {"true": "1", "false": "0", "'\\0'": "0"}.get(c, c)
+    m = re.match(r"^\w[\w:]*\((\d+)\)$", c)          # char(1), Index(0)
+    return m.group(1) if m else c
+
+
+def _mask_states(fk, arr):
+    """(open, done) of a two-state local mask array: open = the value it is filled with at its allocation, done = the one other value ever stored; None otherwise"""
+    if arr is None or not arr.fresh:
+        return None
+    fill = getattr(arr, "fill", None)
+    if fill is not None:
+        op = _cval(fk.canon(fill))
+    elif getattr(arr, "valueinit", False) or arr.zero:
+        op = "0"
+    else:
+        return None
+    vals = {_cval(e.val_canon) for e in fk.events if e.kind == "sub" and e.mode == "write" and e.arr is arr and e.op == "="}
+    other = vals - {op}
+    if len(other) != 1 or any(e.kind == "sub" and e.mode == "write" and e.arr is arr and e.op != "=" for e in fk.events):
+        return None
+    return op, other.pop()
+
+
+def _conj19(c):
+    c = strip(c)
+    if c is not None and c.get("k") == "Bin" and c.get("op") == "&&":
+        return _conj19(c["lhs"]) + _conj19(c["rhs"])
+    return [c] if c is not None else []
+
+
+def _unmarked_pol(fk, c, st):
+    """+1: the condition is equivalent to `mask[idx] is in the open state` (!M[x], M[x] == open, M[x] != done, open == M[x]); -1: to `is done`; 0: neither"""
+    c = strip(c)
+    if c is None or not st.get("states"):
+        return 0
+    op, done = st["states"]
+
+    def is_read(n):
+        n = strip(n)
+        while n is not None and n.get("k") == "MCall" and (n.get("n") or "").startswith("operator") and not n.get("a"):
+            n = strip(n.get("obj"))
+        while n is not None and n.get("k") in ("Construct", "TempObj") and len(n.get("a", [])) == 1:
+            n = strip(n["a"][0])
+        sub = _subscript(n) if n is not None else None
+        if sub is None:
+            return False
+        a = fk.sub_arr(n)
+        return a is not None and a.key == st["mask"] and st["idx"](sub[1])
+    if c.get("k") == "Un" and c.get("op") == "!":
+        return -_unmarked_pol(fk, c["e"], st)
+    if is_read(c):
+        return -1 if op == "0" else 0          # truthiness: non-zero = not open
+    if c.get("k") == "Bin" and c.get("op") in ("==", "!="):
+        l, r = c["lhs"], c["rhs"]
+        if is_read(r):
+            l, r = r, l
+        if is_read(l):
+            v = _cval(fk.canon(r))
+            sign = 1 if c["op"] == "==" else -1
+            if v == op:
+                return sign
+            if v == done:
+                return -sign
+    return 0
+
+
 def _mask_read(fk, n, st):
     """n reads mask[j] (possibly through vector<bool>'s reference conversion)"""
     n = strip(n)
@@ -1766,6 +1848,8 @@ def _mentions_unmarked(fk, c, st):
     if c is None:
         return False
     if c.get("k") == "Un" and c.get("op") == "!" and _mask_read(fk, c["e"], st):
+        return True
+    if _unmarked_pol(fk, c, st) == 1:
         return True
     if c.get("k") == "Bin" and c.get("op") == "&&":
         return _mentions_unmarked(fk, c["lhs"], st) or _mentions_unmarked(fk, c["rhs"], st)
@@ -1805,6 +1889,11 @@ def _eval_first(fk, c, st):
     if c is None:
         return None, []
     k = c.get("k")
+    pol = _unmarked_pol(fk, c, st)
+    if pol == 1:
+        return True, []              # the node considered is unprocessed
+    if pol == -1:
+        return False, ["the node is required to be processed already"]
     if k == "Un" and c.get("op") == "!":
         if _mask_read(fk, c["e"], st):
             return True, []          # the node considered is unprocessed
